@@ -708,6 +708,18 @@ def _modifier_to_expr(parsed_pattern) -> str:
     return " and ".join(conditions)
 
 
+def _pattern_condition(pattern: str) -> str:
+    """The match condition for the pattern cell of a CSV rule.
+
+    A pattern the CSV path evaluates as an expression (contains("X"), amount > 5 and ...) stays
+    that expression; anything else is a regular expression and becomes regex("...").
+    """
+    from tally.merchant_utils import _is_expression_pattern
+    if _is_expression_pattern(pattern):
+        return f"({pattern})"
+    return _regex_call(pattern)
+
+
 def _regex_call(pattern: str) -> str:
     """Write regex("...") for a CSV pattern.
 
@@ -747,8 +759,8 @@ def csv_rule_to_merchant_rule(
     # Regex pattern match
     if pattern:
         # Escape any special characters in the pattern for the match expression
-        # We use regex() function for the pattern
-        parts.append(_regex_call(pattern))
+        # We use regex() function for the pattern (unless the pattern is an expression itself)
+        parts.append(_pattern_condition(pattern))
 
     # Add modifier conditions
     modifier_expr = _modifier_to_expr(parsed_pattern)
@@ -865,7 +877,7 @@ def csv_to_merchants_content(csv_rules: List[Tuple]) -> str:
         parts = []
         if pattern:
             # Pattern is already properly escaped for regex use, write as-is
-            parts.append(_regex_call(pattern))
+            parts.append(_pattern_condition(pattern))
 
         modifier_expr = _modifier_to_expr(parsed) if parsed else ""
         if modifier_expr and not modifier_expr.startswith("#"):
